@@ -135,7 +135,7 @@ def _warm_mdp(sx, sh):
     return build_mdp(sx, shw, rw)
 
 
-def vi_discounted(sx, shape, gamma, version, K, lab='int', direct=False, warm=False):
+def vi_discounted(sx, shape, gamma, version, K, lab='int', direct=False, warm=False, int_flags=False):
     """full planner run, K unrolled sweeps.  Proved on every converged path:
     (i) reported action values are the one-step look-ahead (independent oracle, masked model) of the
     reported state values, (ii) the Bellman residual of the reported values is within the configured
@@ -148,7 +148,8 @@ def vi_discounted(sx, shape, gamma, version, K, lab='int', direct=False, warm=Fa
     from msdm.algorithms.valueiteration import ValueIteration
     L, AL = sh.slabels, sh.alabels
     with facade(sx), shadow(sx, ['msdm.algorithms.valueiteration']):
-        mdp = build_mdp(sx, sh, rew)
+        # int_flags: is_absorbing answers with the integers 0 / 1 instead of booleans (equally truthy)
+        mdp = build_mdp(sx, sh, rew, is_absorbing=(lambda s_: int(L.index(s_) in sh.absorb)) if int_flags else None)
         planner = ValueIteration(max_iterations=K, max_residual=eps, _version=version)
         if warm:        # the same planner object first plans on another problem: nothing may carry over
             with sx.must_not_raise('vi-plan(first problem)'):
@@ -624,6 +625,9 @@ def jobs(tier):
         for gs in (['1/2'] if quick else ['1/2', '9/10']):
             yield ('sticky_state', dict(planner=pl, gamma=gs), o)
     yield ('vi_discounted', dict(shape=3, gamma='1/2', version='vectorized', K=4, lab='str'), o)
+    for i in (1, 4):
+        yield ('vi_discounted', dict(shape=i, gamma='1/2', version='vectorized', K=3, int_flags=True), o)
+        yield ('vi_discounted', dict(shape=i, gamma='1/2', version='dict', K=3, int_flags=True), o)
     yield ('vi_discounted', dict(shape=3, gamma='1/2', version='dict', K=3, lab='mixed'), o)
     yield ('pi_discounted', dict(shape=3, gamma='1/2', lab='str'), o)
     for i in ([1, 3] if quick else [k for k in range(NCUR) if k not in dense]):
